@@ -76,4 +76,6 @@ def add_validation(rep, idx):
     check_refusal(rep, "C06.4", c, "add(): subordinate must be a csr.Interface (TypeError)",
                   [f"not isinstance({unfl}, Interface)", "not isinstance(sub_bus, Interface)"], "TypeError")
     check_refusal(rep, "C06.4", c, "add(): data widths must be equal (ValueError)", "sub_bus.data_width != self.bus.data_width", "ValueError")
+    from .common import closed_refusals
+    closed_refusals(rep, "C06.4", c, "add() refuses nothing but the documented cases")
     glue.registry_and_window(rep, "C06.4", idx, fi, ("name", "addr"))
